@@ -163,6 +163,9 @@ func init() {
 				return intArgErr(c, a[0], TSet, a[1])
 			}
 			cnt = n
+			if cnt == math.MinInt64 {
+				return AnyErr() // outside -LONG_MAX..LONG_MAX: a range error whatever the key holds
+			}
 		}
 		o, e := c.setObj(a[0])
 		if e != nil {
@@ -188,9 +191,6 @@ func init() {
 		}
 		if o == nil || cnt == 0 {
 			return Val(Arr())
-		}
-		if cnt == math.MinInt64 {
-			return Unspecified("count -2^63")
 		}
 		h := map[string]string{}
 		for k := range o.Set {
